@@ -334,9 +334,14 @@ pub fn solve(seed: u64, n: usize, out: &str) {
             }
             5 => {
                 // mismatched counts: must be an error
+                // too few sites with or without least squares allowed, or too many without it
                 let mut tau = greville(&t, k);
-                if r.coin() { tau.pop(); } else { tau.push(b + 1.0); }
-                (tau, 0, 0, false, "mismatch")
+                let lsq = match r.below(3) {
+                    0 => { tau.pop(); false }
+                    1 => { tau.pop(); if tau.len() > 2 && r.coin() { tau.remove(1); } true }
+                    _ => { tau.push(b + 1.0); false }
+                };
+                (tau, 0, 0, lsq, "mismatch")
             }
             _ => (greville(&t, k), 0, 0, false, "one-site-per-coefficient"),
         };
